@@ -132,6 +132,27 @@ def run(tier):
                     chk.sample({"features": feat, "cost_row": case["cv"][0][0], "out": {kk: (vv[0][0] if isinstance(vv, list) else vv) for kk, vv in out.items()}})
             except Exception as exc:  # pylint: disable=broad-except
                 chk.violation("total", dict(method=method, exception=type(exc).__name__), {"features": feat, "exception": repr(exc)[:300]}, f"{method} raised on {feat}")
+        # interval bounds on a MAX-type volume (similarity measure): the possibility 1 - (best - c) / (cmax - cmin) is the possibility of
+        # the reflected min-type volume cmax + cmin - c, which is what the specification is given
+        try:
+            n += 1
+            cid = f"c{n}"
+            cvm = build.make_cv(costs, dmin=dmin, subpix=s, vm=vm, conf=prev, type_measure="max", measure="zncc")
+            objm = cvc.AbstractCostVolumeConfidence(confidence_method="interval_bounds", possibility_threshold=thr, indicator=suffix)
+            _, cv2 = objm.confidence_prediction(xr.Dataset(), None, None, cvm)
+            names = list(map(str, cv2.coords["indicator"].data))
+            data = cv2["confidence_measure"].data
+            old = [] if prev is None else list(prev[0])
+            exp_new = ["confidence_from_interval_bounds_inf" + suffix, "confidence_from_interval_bounds_sup" + suffix]
+            outm = {"bands_ok": bool(names == old + exp_new), "frame_ok": bool(same_bits(np.asarray(costs, dtype=np.float32), cv2["cost_volume"].data)),
+                    "inf": enc_scaled(data[:, :, len(old)], s), "sup": enc_scaled(data[:, :, len(old) + 1], s)}
+            reflected = (2 * low + span) - costs
+            cases.append(dict(base, id=cid, step="confidence", method="interval_bounds", K=Kdoc, normalized=False, cv=enc_scaled(reflected, 1), out=outm))
+            meta[cid] = {"method": "interval_bounds", "type_measure": "max", "threshold": thr, "nd": nd, "span": span}
+            chk.count(("ibmax", rows, cols, nd, span, thr, k))
+        except Exception as exc:  # pylint: disable=broad-except
+            chk.violation("total", dict(method="interval_bounds", exception=type(exc).__name__), {"type_measure": "max", "exception": repr(exc)[:300]},
+                          f"interval_bounds on a max-type volume raised: {exc!r}")
         # interval bounds WITH regularisation (quantile 1): against the same step without regularisation it can only widen
         # the interval of a pixel and never loses a bound (pixels without any cost have NaN bounds in both runs)
         try:
